@@ -83,6 +83,7 @@ struct Plan
   }
 };
 
+extern long g_guarded_table_calls; // sim/guard_tables.cc: calls of decay0_divdif served with re-homed tables (ASan flavour)
 struct Outcome
 {
   std::string verdict = "ok"; // ok | violation | crash | hang
